@@ -198,6 +198,36 @@ def quiet_logging():
     logging.disable(logging.CRITICAL)
 
 
+class CaseHang(BaseException):
+    """Raised by the per-case CPU watchdog (BaseException: `except Exception` in the code under test lets it through)."""
+
+
+CASE_CPU_LIMIT_S = float(os.environ.get("VF_CASE_CPU_LIMIT", "300"))
+
+
+def run_with_watchdog(fn, what: str):
+    """Run fn(); if this process burns more than CASE_CPU_LIMIT_S of CPU time inside it (orders of magnitude above any
+    case on the unchanged tree), report `case-does-not-terminate` instead of hanging the whole check. CPU time, not wall
+    time: a loaded machine or a sleeping case never trips it."""
+    import signal
+
+    def fire(signum, frame):
+        raise CaseHang(what)
+    try:
+        old = signal.signal(signal.SIGPROF, fire)
+    except ValueError:          # not in the main thread
+        return fn()
+    signal.setitimer(signal.ITIMER_PROF, CASE_CPU_LIMIT_S, 5.0)     # re-fires in case something swallows it
+    try:
+        return fn()
+    except CaseHang:
+        raise Violation("case-does-not-terminate", "%s: more than %.0f s of CPU time in one case" % (
+            what, CASE_CPU_LIMIT_S))
+    finally:
+        signal.setitimer(signal.ITIMER_PROF, 0)
+        signal.signal(signal.SIGPROF, old)
+
+
 def explore(ctx: Ctx, sub: str, strategy, check: Callable[[Any, Ctx], None], examples: int,
             batch: Optional[int] = None, shrink: bool = True, max_restarts: int = 12,
             minimize: Optional[Callable[[Violation, Ctx], Violation]] = None):
@@ -227,7 +257,7 @@ def explore(ctx: Ctx, sub: str, strategy, check: Callable[[Any, Ctx], None], exa
         def body(case):
             ctx.rec.evaluations += 1
             try:
-                check(case, ctx)
+                run_with_watchdog(lambda: check(case, ctx), "%s/%s" % (ctx.prop, sub))
             except Violation as v:
                 if v.sig in ctx.excluded:
                     ctx.rec.excluded[v.sig] += 1
